@@ -123,7 +123,7 @@ and gen_timeouts depth =
   List.filter_map (fun _ -> let on = 1 + rnd 3 in if List.mem on !used then None else begin used := on :: !used;
     Some (Tmo (nat_of_int on, z_of_int (on * 1000), List.init (rnd 3) (fun _ -> gen_step depth true))) end) (List.init (1 + rnd 2) (fun _ -> ()))
 and gen_catches depth =
-  List.init (1 + rnd 2) (fun _ -> Catch ((match rnd 4 with 0 -> None | x -> Some (nat_of_int x)), List.init (rnd 3) (fun _ -> gen_step depth true)))
+  List.init (1 + rnd 3) (fun _ -> Catch ((match rnd 4 with 0 -> None | x -> Some (nat_of_int x)), List.init (rnd 3) (fun _ -> gen_step depth true)))
 and gen_step depth simple : step =
   let id = fresh () in
   let sif = rcond 15 in
@@ -204,19 +204,19 @@ let gen_main n seed0 maxops out =
          end else begin
            let rand_action tgt =
              match rnd 100 with
-             | x when x < 40 -> ANext, "next", []
-             | x when x < 46 -> ASubmit, "submit", []
-             | x when x < 52 -> ARemove, "remove", []
-             | x when x < 62 -> ASkip, "skip", []
-             | x when x < 68 -> AAbort, "abort", []
-             | x when x < 84 -> let c = 1 + rnd 3 in AError (Some (nat_of_int c)), "error", [("ecode", Json.Str (Printf.sprintf "e%d" c))]
-             | x when x < 86 -> AError None, "error", []
-             | x when x < 95 ->
+             | x when x < 36 -> ANext, "next", []
+             | x when x < 42 -> ASubmit, "submit", []
+             | x when x < 48 -> ARemove, "remove", []
+             | x when x < 57 -> ASkip, "skip", []
+             | x when x < 62 -> AAbort, "abort", []
+             | x when x < 80 -> let c = 1 + rnd 3 in AError (Some (nat_of_int c)), "error", [("ecode", Json.Str (Printf.sprintf "e%d" c))]
+             | x when x < 82 -> AError None, "error", []
+             | x when x < 90 ->
                  let rec chain i acc = match (tk !e (nat_of_int i)).t_prev with None -> acc | Some p -> chain (int_of_nat p) (int_of_nat p :: acc) in
                  let steps = List.filter (fun i -> kindof i = KStep) (chain tgt []) in
                  if steps = [] || rnd 8 = 0 then ABack (Some (nat_of_int 99999)), "back", [("to", Json.Str "n99999")]
                  else let s = (tnode !e (nat_of_int (pick steps))).n_id in ABack (Some s), "back", [("to", Json.Str (nname s))]
-             | x when x < 97 -> ABack None, "back", []
+             | x when x < 92 -> ABack None, "back", []
              | _ -> ACancel, "cancel", [] in
            let target, (act, aname, aopts) =
              if r < 70 && irqs <> [] then (let t = pick irqs in t, rand_action t)
